@@ -25,6 +25,8 @@ class PrintUsingFormatter:
                 else:
                     i += n
                     self.fmt_parts.append(part)
+                    # the next character may start another field
+                    continue
 
             if i >= len(fmt):
                 break
